@@ -137,7 +137,7 @@ PROPS = {
   'quick': {'cases': 6400, 'max_size': 300, 'wall_s': 900},
   'thorough': {'cases': 128000, 'max_size': 400, 'wall_s': 3000},
   'sim': ['simsock', 'fakecurl', 'simclock'],
-  'essential_classes': ['api:block-signer', 'reply:chains-not-lowest-first', 'dev:honest', 'dev:foreign-id', 'dev:other-hash', 'dev:status', 'dev:error-pdu', 'dev:error-pdu-status0', 'dev:bad-mac', 'dev:no-mac', 'dev:inconsistent-chains', 'dev:other-pdu-version', 'outcome:success', 'outcome:error',
+  'essential_classes': ['dev:no-request-id', 'readd:same-handle-added-again', 'api:block-signer', 'reply:chains-not-lowest-first', 'dev:honest', 'dev:foreign-id', 'dev:other-hash', 'dev:status', 'dev:error-pdu', 'dev:error-pdu-status0', 'dev:bad-mac', 'dev:no-mac', 'dev:inconsistent-chains', 'dev:other-pdu-version', 'outcome:success', 'outcome:error',
                         'api:async', 'api:signAggregated', 'transport:http', 'transport:tcp', 'pdu:v1', 'pdu:v2', 'untrusted-algorithm'],
   'assumptions': ['simulated sockets / libcurl behave as documented'],
  }, 'C06': {
